@@ -134,6 +134,11 @@ class RateLimiter:
                 ip
                 for ip, bucket in self.buckets.items()
                 if now - bucket.last_update > 600  # 10 minutes idle
+                # Only drop buckets that have refilled completely: a new bucket
+                # starts full, so evicting a partly filled one would hand the
+                # client allowance it has not accrued yet.
+                and bucket.tokens + (now - bucket.last_update) * bucket.refill_rate
+                >= bucket.capacity
             ]
 
             for ip in to_remove:
